@@ -64,10 +64,19 @@ func hexs(b []byte) string {
 // compiled code and are compiled lazily on first use (a different code path that must use the same generator)
 var restoreVars = false
 
+// c06Mode: -1 / +1 = the seeded VMs compute the lower / upper bound (DiceMinMode / DiceMaxMode); dice draw nothing then,
+// but the random array methods still draw — from the VM's own generator
+var c06Mode = 0
+
+func c06ApplyMode(vm *ds.Context) {
+	vm.Config.DiceMinMode, vm.Config.DiceMaxMode = c06Mode < 0, c06Mode > 0
+}
+
 func seededVM(seed []byte, pre string) *ds.Context {
 	vm := &ds.Context{Seed: append([]byte{}, seed...)}
 	vm.Init()
 	allOn().apply(vm)
+	c06ApplyMode(vm)
 	if pre != "" {
 		func() {
 			defer func() { _ = recover() }()
@@ -78,6 +87,7 @@ func seededVM(seed []byte, pre string) *ds.Context {
 				vm2 := &ds.Context{Seed: append([]byte{}, seed...)}
 				vm2.Init()
 				allOn().apply(vm2)
+				c06ApplyMode(vm2)
 				if vm2.Attrs.UnmarshalJSON(js) == nil {
 					vm = vm2
 				}
@@ -167,6 +177,7 @@ func init() {
 				Pre     string `json:"pre"`
 				Next    string `json:"next"`
 				Restore bool   `json:"restore"`
+				Mode    int    `json:"mode"`
 			}
 			if json.Unmarshal(sc.Bytes(), &in) != nil {
 				continue
@@ -175,6 +186,7 @@ func init() {
 			pre, _ := base64.StdEncoding.DecodeString(in.Pre)
 			next, _ := base64.StdEncoding.DecodeString(in.Next)
 			restoreVars = in.Restore
+			c06Mode = in.Mode
 			sb := seedBytes(r)
 			// pin the package-level generator so that a dependence on it is DETERMINISTIC in the stability test below
 			pin := func(x uint64) {
@@ -212,9 +224,21 @@ func init() {
 				vm3 := &ds.Context{Seed: cur}
 				vm3.Init()
 				allOn().apply(vm3)
+				c06ApplyMode(vm3)
 				c3 := c06Run(vm3, string(next))
 				row["resume_same"] = c1 == c3
 				row["c1"], row["c3"], row["o2seed"] = c1, c3, o2.Seed
+			}
+			// seeding ONE context again from the SAME bytes (Seed re-assigned with equal content, Init) must give the run a fresh
+			// context gives from these bytes: value, process text, final generator state
+			if len(pre) == 0 {
+				vmR := seededVM(sb, "")
+				r1 := c06Run(vmR, string(raw))
+				vmR.Seed = append([]byte{}, sb...)
+				vmR.Init()
+				r2 := c06Run(vmR, string(raw))
+				row["reseed_same"] = r1 == r2 && r1 == a
+				row["r1"], row["r2"] = r1, r2
 			}
 			emit(row)
 		}
